@@ -74,6 +74,7 @@ class Ctx:
         self.labels = []
         self.nontrivial = False
         self.excluded = []
+        self.approach = 0.0     # largest error / tolerance ratio of the tolerance comparisons this case passed
 
     def label(self, *names):
         self.labels.extend(names)
@@ -110,6 +111,13 @@ class Ctx:
         if not cond:
             raise Violation(bucket, msg)
 
+    def within(self, err, tol, bucket, msg=''):
+        """require err <= tol and remember how close the case came (evidence; search target in the thorough tier)"""
+        if not (err <= tol):
+            raise Violation(bucket, msg)
+        from . import util as _U
+        _U.note_approach(err, tol)
+
 
 class _Excluded(Exception):
     pass
@@ -129,8 +137,11 @@ class Clause:
     def run_case(self, case):
         """returns (ctx, violation|None, excluded?)"""
         ctx = Ctx()
+        from . import util as _U
+        _U.APPROACH[0] = 0.0
         try:
             self.check(case, ctx)
+            ctx.approach = _U.APPROACH[0]
         except _Excluded:
             return ctx, None, True
         except Violation as v:
@@ -209,9 +220,11 @@ class Stats:
         self.wall = 0.0
         self.exhaustive = None
         self.shrink_calls = 0
+        self.max_approach = 0.0
 
     def record(self, case, ctx, excluded, fp=None):
         self.evaluations += 1
+        self.max_approach = max(self.max_approach, getattr(ctx, 'approach', 0.0))
         fp = fingerprint(case) if fp is None else fp
         for l in ctx.labels:
             if isinstance(l, tuple):
@@ -237,7 +250,7 @@ class Stats:
             'evaluations': self.evaluations, 'nontrivial': self.nontrivial, 'labels': dict(self.labels),
             'excluded': dict(self.excluded), 'known_hits': dict(self.known_hits),
             'samples': self.first + [c for _, c in self.samples[:3]], 'violation': self.violation,
-            'error': self.error, 'wall': self.wall, 'exhaustive': self.exhaustive,
+            'error': self.error, 'wall': self.wall, 'exhaustive': self.exhaustive, 'max_approach': self.max_approach,
         }
 
 
@@ -315,8 +328,10 @@ def run_task(prop, clause, tier, seed, shard, nshards):
 
 def _hyp_settings(n, tier, stateful_steps=None):
     from hypothesis import settings, HealthCheck, Phase
+    # thorough tier: targeted search - hypothesis.target() is fed the closest approach of the case to any of its tolerances
+    phases = [Phase.generate, Phase.target, Phase.shrink] if tier == 'thorough' and stateful_steps is None else [Phase.generate, Phase.shrink]
     kw = dict(max_examples=n, database=None, deadline=None, derandomize=False, report_multiple_bugs=False,
-              suppress_health_check=list(HealthCheck), phases=[Phase.generate, Phase.shrink],
+              suppress_health_check=list(HealthCheck), phases=phases,
               print_blob=False)
     if stateful_steps is not None:
         kw['stateful_step_count'] = stateful_steps
@@ -337,6 +352,9 @@ def _run_hyp(prop, clause, tier, seed, shard, st, one, best):
         v = one(case, count=not shrinking)
         if shrinking:
             st.shrink_calls += 1
+        if v is None and tier == 'thorough' and not shrinking:
+            from . import util as _U
+            hypothesis.target(float(_U.APPROACH[0]), label='closest approach to a tolerance')
         if v is not None:
             if best['t_first'] is None:
                 best['t_first'] = time.time()
